@@ -49,28 +49,34 @@ MEM_FUNCS = ["popstate", "delim_error", "write_codepoint", "escapeh", "escapeu",
              "janet_parser_produce_wrapped"]
 
 P = r"(?:p|parser)"
+ID = r"[A-Za-z_]\w*"
 MEM_PATTERNS = [
     # calls of stack primitives and of functions that use them
     (r"\bpush_buf\s*\(", "push_buf"), (r"\bpush_arg\s*\(", "push_arg"), (r"\b_?pushstate\s*\(", "pushstate"),
     (r"\bpopstate\s*\(", "popstate"), (r"\bstringend\s*\(", "stringend"), (r"\bwrite_codepoint\s*\(", "write_codepoint"),
     (r"\bdelim_error\s*\(", "delim_error"), (r"\bclose_(tuple|array|struct|table)\s*\(", "close_\\1"),
     (r"\bjanet_parser_(consume|eof|flush|error|produce_wrapped|produce|status)\s*\(", "\\1"),
+    # loops over the argument stack: the bounds are part of the event
+    (r"for\s*\(\s*(?:int32_t\s+)?(" + ID + r")\s*=\s*" + ID + r"->argn\s*-\s*1\s*;\s*\1\s*>=\s*0\s*;\s*\1\s*--\s*\)\s*\{?\s*[\w>.-]+\s*\[\s*\1\s*\]\s*=\s*"
+     + P + r"->args\s*\[\s*--\s*" + P + r"->argcount\s*\]", "for(i=argn-1;i>=0;i--)args[--argcount]"),
+    (r"for\s*\(\s*(?:size_t\s+)?(" + ID + r")\s*=\s*" + P + r"->argcount\s*-\s*" + ID + r"->argn\s*;\s*\1\s*<\s*" + P + r"->argcount\s*;\s*\1\s*\+=\s*2\s*\)",
+     "for(i=argcount-argn;i<argcount;i+=2)"),
+    (r"for\s*\(\s*(" + ID + r")\s*=\s*1\s*;\s*\1\s*<\s*" + P + r"->argcount\s*;\s*\1\s*\+\+\s*\)\s*\{?\s*" + P + r"->args\s*\[\s*\1\s*-\s*1\s*\]\s*=\s*"
+     + P + r"->args\s*\[\s*\1\s*\]", "for(i=1;i<argcount;i++)args[i-1]=args[i]"),
     # counts
     (P + r"->states\s*\[\s*--\s*" + P + r"->statecount\s*\]", "states[--statecount]"),
-    (P + r"->args\s*\[\s*--\s*" + P + r"->argcount\s*\]", "args[--argcount]"),
     (P + r"->statecount\s*--|--\s*" + P + r"->statecount", "statecount--"),
     (P + r"->argcount\s*--|--\s*" + P + r"->argcount", "argcount--"),
-    (P + r"->argcount\s*-=\s*state->argn", "argcount-=argn"),
+    (P + r"->argcount\s*-=\s*" + ID + r"->argn", "argcount-=argn"),
     (P + r"->bufcount\s*=\s*0\b", "bufcount=0"), (P + r"->argcount\s*=\s*0\b", "argcount=0"), (P + r"->statecount\s*=\s*1\b", "statecount=1"),
     (P + r"->(statecount|argcount|bufcount)\s*(?:[-+*/]?=(?!=)|\+\+)", "WRITE:\\1"),
     (P + r"->(states|args|buf)\s*=(?!=)", "WRITE:\\1"),
     # indexed reads / writes
     (P + r"->buf\s*\[\s*0\s*\]", "buf[0]"), (P + r"->args\s*\[\s*0\s*\]", "args[0]"), (P + r"->states\s*\[\s*0\s*\]", "states[0]"),
-    (P + r"->args\s*\[\s*i\s*-\s*1\s*\]\s*=\s*" + P + r"->args\s*\[\s*i\s*\]", "args[i-1]=args[i]"),
-    (P + r"->args\s*\[\s*i\s*\+\s*1\s*\]", "args[i+1]"), (P + r"->args\s*\[\s*i\s*\]", "args[i]"),
+    (P + r"->args\s*\[\s*" + ID + r"\s*\+\s*1\s*\]", "args[i+1]"), (P + r"->args\s*\[\s*" + ID + r"\s*\]", "args[i]"),
     (P + r"->states\s*\[\s*" + P + r"->statecount\s*-\s*1\s*\]", "states[statecount-1]"),
     (P + r"->states\s*\+\s*" + P + r"->statecount\s*-\s*1\b", "states+statecount-1"),
-    (P + r"->states\s*\+\s*stack_index\b", "states+stack_index"),
+    (P + r"->states\s*\+\s*" + ID + r"\b(?!\s*->)", "states+stack_index"),
     (P + r"->(states|args)\s*\[", "INDEX:\\1"),
 ]
 _MEM_RX = [(re.compile(rx), name) for rx, name in MEM_PATTERNS]
@@ -97,6 +103,34 @@ def mem_ops(body, fn):
         else:
             i += 1
     return out
+
+
+def _stack_of(ev):
+    """The single stack an event touches (None: a call / several stacks: ordered w.r.t. everything)."""
+    if ev in ("push_buf", "bufcount=0", "buf[0]"):
+        return "buf"
+    if ev in ("pushstate", "statecount--", "statecount=1", "states[0]", "states[statecount-1]", "states+statecount-1", "states+stack_index",
+              "states[--statecount]"):
+        return "states"
+    if ev in ("push_arg", "argcount=0", "argcount--", "argcount-=argn", "args[0]", "args[i]", "args[i+1]", "args[--argcount]",
+              "for(i=argn-1;i>=0;i--)args[--argcount]", "for(i=argcount-argn;i<argcount;i+=2)", "for(i=1;i<argcount;i++)args[i-1]=args[i]"):
+        return "args"
+    return None
+
+
+def commute_normal_form(ops):
+    """Events on different stacks are independent statements: reordering them is behaviour preserving.  Canonical representative of
+    the trace: swap adjacent independent events into alphabetical order until stable."""
+    ops = list(ops)
+    changed = True
+    while changed:
+        changed = False
+        for i in range(len(ops) - 1):
+            a, b = _stack_of(ops[i]), _stack_of(ops[i + 1])
+            if a and b and a != b and ops[i] > ops[i + 1]:
+                ops[i], ops[i + 1] = ops[i + 1], ops[i]
+                changed = True
+    return ops
 
 
 def all_functions(src):
@@ -188,23 +222,25 @@ def extract(tree):
     if not m:
         raise ExtractError("DEF_PARSER_STACK not found")
     mac = norm(m.group(1).replace("\\\n", " "))
-    mm = re.fullmatch(r"staticvoidNAME\(JanetParser\*p,Tx\)\{size_toldcount=p->STACKCOUNT;size_tnewcount=oldcount\+1;if\(newcount>p->STACKCAP\)\{T\*next;"
-                      r"size_tnewcap=(\d+)\*newcount;next=janet_realloc\(p->STACK,sizeof\(T\)\*newcap\);if\(NULL==next\)\{JANET_OUT_OF_MEMORY;\}"
-                      r"p->STACK=next;p->STACKCAP=newcap;\}p->STACK\[oldcount\]=x;p->STACKCOUNT=newcount;\}", mac)
+    # local names are free (back-references); the structure is fixed
+    mm = re.fullmatch(r"staticvoidNAME\(JanetParser\*p,T(?P<x>\w+)\)\{size_t(?P<old>\w+)=p->STACKCOUNT;size_t(?P<new>\w+)=(?P=old)\+1;"
+                      r"if\((?P=new)>p->STACKCAP\)\{T\*(?P<nx>\w+);"
+                      r"size_t(?P<cap>\w+)=(\d+)\*(?P=new);(?P=nx)=janet_realloc\(p->STACK,sizeof\(T\)\*(?P=cap)\);if\(NULL==(?P=nx)\)\{JANET_OUT_OF_MEMORY;\}"
+                      r"p->STACK=(?P=nx);p->STACKCAP=(?P=cap);\}p->STACK\[(?P=old)\]=(?P=x);p->STACKCOUNT=(?P=new);\}", mac)
     if not mm:
         raise ExtractError("DEF_PARSER_STACK: body not recognised: %s" % mac[:300])
-    c["stackGrowFactor"] = int(mm.group(1))
+    c["stackGrowFactor"] = int(mm.group(6))
     inst = re.findall(r"^DEF_PARSER_STACK\((\w+),\s*[\w ]+,\s*(\w+),\s*(\w+),\s*(\w+)\)", src, re.M)
     if sorted(inst) != sorted([("push_buf", "buf", "bufcount", "bufcap"), ("push_arg", "args", "argcount", "argcap"), ("_pushstate", "states", "statecount", "statecap")]):
         raise ExtractError("DEF_PARSER_STACK instances changed: %r" % inst)
     # no other writer of a capacity / allocation of a stack than: the macro, init (0), clone (= count), the string branch of parser/insert
     capw = re.findall(r"(?:p|parser|dest)->(bufcap|argcap|statecap)\s*=\s*([^;]+);", src)
     want = sorted([("argcap", "0"), ("bufcap", "0"), ("statecap", "0"), ("bufcap", "dest->bufcount"), ("statecap", "dest->statecount"), ("argcap", "dest->argcount"),
-                   ("bufcap", "newcap")])
-    if sorted((a, b.strip()) for a, b in capw) != want:
+                   ("bufcap", "<local>")])
+    if sorted((a, b.strip() if (b.strip() == "0" or "->" in b) else "<local>") for a, b in capw) != want:
         raise ExtractError("capacity assignments changed: %r" % capw)
     # ---- memory events of every function the physical machine (Parse/Phys.lean) mirrors, in source order
-    c["memOps"] = [(fn, mem_ops(csrc.func_body(src, fn), fn)) for fn in MEM_FUNCS]
+    c["memOps"] = [(fn, commute_normal_form(mem_ops(csrc.func_body(src, fn), fn))) for fn in MEM_FUNCS]
     # no function outside that list (and the ones pinned above / below: init, clone, cfun_parse_insert, parser_state_delimiters)
     # touches a count, a block or calls a stack primitive
     known = set(MEM_FUNCS) | {"janet_parser_init", "janet_parser_clone", "janet_parser_deinit", "pushstate"}
@@ -224,10 +260,10 @@ def extract(tree):
         c[name] = csrc.cint(m.group(1))
     # ---- line / column rule
     body = csrc.func_body(src, "janet_parser_consume")
-    want = ("{int consumed=0;janet_parser_checkdead(parser);if(c=='\\r'){parser->line++;parser->column=0;}else if(c=='\\n'){parser->column=0;"
-            "if(parser->lookback!='\\r')parser->line++;}else{parser->column++;}while(!consumed&&!parser->error){JanetParseState*state=parser->states+"
-            "parser->statecount-1;consumed=state->consumer(parser,state,c);}parser->lookback=c;}")
-    c["consumeShapeOk"] = norm(body) == norm(want)
+    want = (r"\{int(?P<c>\w+)=0;janet_parser_checkdead\(parser\);if\(c=='\\r'\)\{parser->line\+\+;parser->column=0;\}elseif\(c=='\\n'\)\{parser->column=0;"
+            r"if\(parser->lookback!='\\r'\)parser->line\+\+;\}else\{parser->column\+\+;\}while\(!(?P=c)&&!parser->error\)\{JanetParseState\*(?P<s>\w+)=parser->states\+"
+            r"parser->statecount-1;(?P=c)=(?P=s)->consumer\(parser,(?P=s),c\);\}parser->lookback=c;\}")
+    c["consumeShapeOk"] = re.fullmatch(want, norm(body)) is not None
     if not c["consumeShapeOk"]:
         raise ExtractError("janet_parser_consume: line/column/lookback rule or consume loop changed shape: %s" % norm(body)[:400])
     # ---- clone / flush / error: fields touched
